@@ -124,9 +124,9 @@ def strategy(cmd):
     if cmd.name == "persistentreserveout":
         return paramgen.prout_args()
     if cmd.name == "extendedcopy4":
-        return paramgen.xcopy_args(False, seg_codes=(0x00, 0x02, 0x0B, 0x0D))
+        return paramgen.xcopy_args(False)
     if cmd.name == "extendedcopy5":
-        return paramgen.xcopy_args(True, seg_codes=(0x00, 0x02, 0x0B, 0x0D))
+        return paramgen.xcopy_args(True)
     return gen.args(cmd)
 
 
